@@ -15,6 +15,10 @@ CLAIMED = {
    text="Deductive, partial: every successful Rename of a writable instance performs exactly one Move (after optionally removing the destination), for every outcome of every lookup; operation counters force every function between the API and the operations layer to declare what it calls. The full decision tables of DESIGN 4.2 (reject conditions and effects of every method against the reference semantics) are NOT built.",
    note="Undecided: reject/accept tables for Create/OpenFile/Mkdir/MkdirAll/Remove/attribute changes, names preserved, File.sync resurrection of tombstones. Known defects on the pinned tree not yet decided by an obligation: Mkdir/Create under a regular file, MkdirAll creates only the leaf, OpenFile(O_CREATE|O_EXCL) on a missing file reports not-exist.",
    design="4.2"),
+ "C11": dict(
+   text="Deductive, restricted (no interleaving semantics): the premises of the global-lock argument are proved -- every read or write of the mutable fields of an open file (info, stream reader/writer, write cache and its cleanup) happens while the shared io lock is held by the calling thread, on every path of every File method and helper; every index lookup, listing, root lookup and every operations-layer call made by an STFS or File method happens under the io lock; lock acquisition/release is balanced on every path (C10). From these, mutual atomicity of method bodies follows by the standard single-global-lock argument, which is stated in DESIGN 4.11 and not mechanised.",
+   note="Not decided: scheduler fairness/liveness, database/sql internals, the persister's root cache (guarded by a lock of another object), Create's advisory parent lookup before OpenFile (repeated under the lock), SymlinkIfPossible's root lookup before the lock, the background Restore goroutine of the read path (touches the index outside the lock: same design-level finding as C10).",
+   design="4.11"),
  "C12": dict(
    text="Deductive for the Go parts, bounded for the SQL: Rename is proved to refuse every destination below the source (string theory over cleaned paths) without writing; the child selection of recursive remove/rename (GetHeaderChildren) and the key rewrite (MoveHeader) are executed exhaustively on the real SQLite over all small index views of an adversarial name alphabet (_, %, case pairs, multi-byte, space, dot, prefix-related siblings) and compared with the set comprehension of their contracts -- labelled bounded, not proved.",
    note="Bounded scope: <= 2 rows per view (thorough 3), alphabet of 19 names, depth <= 3. Undecided: Delete/Move record sets and the new-name formula of Operations.Move (slice/element reasoning not built), symlink rows.",
@@ -70,7 +74,7 @@ NOT_YET = {
 
 
  
- "C11": "not yet built (planned, DESIGN 4.11)",
+
 
 
  "C17": "not yet built (planned, DESIGN 4.17)",
